@@ -24,7 +24,8 @@ RULE = ('(universes) DynamicUniverse / StaticUniverse alone: entry maps over 1-8
         'None or post-end entry never appear in a row, a fill or the holdings. Non-trivial = (sessions) an entry '
         'exactly on an instant and one a minute after it in one case; (universes) a query exactly at an entry; '
         '(optimisers) >= 2 assets.'
-        ' Round-5 reach: the universe-driven alpha model is also built with its optional data-handler argument (a handler pricing every other asset): its signals still cover exactly the members.')
+        ' Round-5 reach: the universe-driven alpha model is also built with its optional data-handler argument (a handler pricing every other asset): its signals still cover exactly the members.'
+        " Round-10 reach: configured static lists naming a symbol twice; `static` part: a second strategy with its own portfolio and static universe on the same account (after every rebalance each portfolio holds assets of its own universe only).")
 ASSUMPTIONS = [
     'UTC-aware timestamps; up to 8 assets (direct) / 5 symbols (sessions); sessions of 8-60 days',
     'session markets are dense with data from 9 days before the start (an unpriced member is C06/C07\'s subject)',
@@ -45,6 +46,9 @@ def run_universe(case):
     amap = dict(zip(assets, entries))
     dyn = q.DynamicUniverse(dict(amap))
     stat = q.StaticUniverse(list(assets))
+    # a configured list may name a symbol more than once (two watch-lists joined): it is yielded as configured
+    dup_list = list(assets) + list(assets[:case.get('dup', 0)])
+    stat_dup = q.StaticUniverse(list(dup_list))
     exact = False
     # the universe-driven alpha model, plain and built with its optional data-handler argument (a handler that can
     # price only every other asset): the signals cover exactly the members, priced or not
@@ -61,6 +65,8 @@ def run_universe(case):
                 t, list(got), want, {a: str(e) for a, e in amap.items()}))
         if list(stat.get_assets(t)) != list(assets):
             raise Violation('static universe at %s is %s, configured %s' % (t, stat.get_assets(t), assets))
+        if list(stat_dup.get_assets(t)) != dup_list:
+            raise Violation('static universe at %s is %s, configured %s' % (t, stat_dup.get_assets(t), dup_list))
         for k, al in enumerate(alphas):
             w = al(t)
             if list(w) != want or any(v != 0.5 for v in w.values()):
@@ -69,6 +75,8 @@ def run_universe(case):
         if any(e is not None and e == t for e in entries):
             exact = True
     cls = ['has_none'] if None in entries else []
+    if case.get('dup'):
+        cls.append('static_list_naming_a_symbol_twice')
     if any(zones):
         cls.append('entry_in_other_time_zone')
     if exact:
@@ -88,7 +96,7 @@ def universes(draw):
     if draw(st.sampled_from([False, False, True])):
         qs.append(draw(st.sampled_from(['y2300', 'y2300', 'y9999', 'y1968', 'y1968', 'y1700'])))      # ... centuries ahead, or back
     zones = [draw(st.sampled_from([None, None, None, 'America/New_York', 'Asia/Tokyo', 'Europe/London'])) for _ in assets]
-    return {'assets': assets, 'entries': entries, 'queries': qs, 'zones': zones}
+    return {'assets': assets, 'entries': entries, 'queries': qs, 'zones': zones, 'dup': draw(st.sampled_from([0, 0, 1, 2]))}
 
 
 def run_optimiser(case):
@@ -287,6 +295,19 @@ def run_static_pcm(case):
     equal = case.get('optimiser') == 'equal'
     optimiser = q.EqualWeightPortfolioOptimiser(data_handler=dh) if equal else q.FixedWeightPortfolioOptimiser(data_handler=dh)
     pcm = q.PortfolioConstructionModel(b, 'p', uni, sizer, optimiser, alpha_model=alpha, data_handler=dh)
+    second = None
+    if case.get('second_universe'):
+        # a second strategy with a portfolio and a static universe of its own on the same account: each portfolio
+        # receives positions in the assets of its own universe only
+        conf2 = [pool[i] for i in case['second_universe']]
+        b.subscribe_funds_to_account(1e6)
+        b.create_portfolio('p2')
+        b.subscribe_funds_to_portfolio('p2', 1e6)
+        uni2 = q.StaticUniverse(list(conf2))
+        sizer2 = (q.DollarWeightedCashBufferedOrderSizer(b, 'p2', dh, cash_buffer_percentage=0.05) if case['long_only']
+                  else q.LongShortLeveragedOrderSizer(b, 'p2', dh, gross_leverage=1.0))
+        second = (conf2, q.PortfolioConstructionModel(b, 'p2', uni2, sizer2, q.FixedWeightPortfolioOptimiser(data_handler=dh),
+                                                      alpha_model=q.SingleSignalAlphaModel(uni2, signal=1.0), data_handler=dh))
     t = kit.T_CLOSE
     for k in range(case['rebalances']):
         b.update(t)
@@ -310,12 +331,22 @@ def run_static_pcm(case):
             raise Violation('universe-driven alpha model weights %s, configured universe %s' % (list(w), configured))
         for o in orders:
             b.submit_order('p', o)
+        if second:
+            for o in second[1](t):
+                b.submit_order('p2', o)
         t = t + pd.Timedelta(days=1)
         if t.weekday() > 4:
             t = t + pd.Timedelta(days=7 - t.weekday())
         b.update(t.normalize() + pd.Timedelta(hours=14, minutes=30))
+        if second:
+            for pid_, conf_ in (('p', configured), ('p2', second[0])):
+                stray = [a for a in b.get_portfolio_as_dict(pid_) if a not in conf_]
+                if stray:
+                    raise Violation('after rebalance %d portfolio %s holds %s; the static universe of its strategy is %s '
+                                    '(the other strategy on the account trades %s)' % (
+                                        k + 1, pid_, stray, conf_, second[0] if pid_ == 'p' else configured))
     outside = any(pool[i] not in configured for i, _ in case['holdings'])
-    return Result(['held_outside_universe'] if outside else [], nontrivial=outside and case['rebalances'] >= 2)
+    return Result((['held_outside_universe'] if outside else []) + (['two_strategies_on_one_account'] if second else []), nontrivial=outside and case['rebalances'] >= 2)
 
 
 @st.composite
@@ -326,7 +357,8 @@ def static_pcm(draw):
                          draw(st.lists(st.integers(0, n - 1), min_size=0, max_size=3, unique=True))],
             'prices': [draw(st.floats(1, 300).map(lambda x: float('%.5g' % x))) for _ in range(n)],
             'long_only': draw(st.booleans()), 'rebalances': draw(st.integers(1, 3)),
-            'optimiser': draw(st.sampled_from(['fixed', 'equal']))}
+            'optimiser': draw(st.sampled_from(['fixed', 'equal'])),
+            'second_universe': draw(st.one_of(st.none(), st.lists(st.integers(0, n - 1), min_size=1, max_size=3, unique=True)))}
 
 
 PARTS = [
